@@ -127,11 +127,13 @@ class Gen:
             return torch.linalg.qr(Q0 + 1e-3 * self.randn(n, n)).Q
         if kind == "random":             # not orthonormal
             return self.randn(n, n)
+        if kind == "scaled_orth":        # orthogonal columns of norm 64 or 1/64: ||last_Q|| differs from ||Q|| in the first iteration
+            return self.orth(n) * self.ck.rng.choice((64.0, 1.0 / 64.0))
         raise KeyError(kind)
 
 
 A_KINDS = ["distinct", "distinct_log", "repeated", "rankdef", "zero", "identity", "diag", "gram"]
-E_KINDS = ["zero", "exact", "exact_shuffled", "random_orth", "perturbed", "perturbed_orth", "random"]
+E_KINDS = ["zero", "exact", "exact_shuffled", "random_orth", "perturbed", "perturbed_orth", "random", "scaled_orth"]
 TOLS = [0.0, 1e-5, 0.1, 10.0]
 
 
@@ -231,6 +233,13 @@ class Injected(RuntimeError):
     pass
 
 
+class Runaway(RuntimeError):
+    """raised by the recording qr wrapper when the implementation keeps iterating far beyond max_iterations"""
+
+
+MAX_QR_CALLS = 200
+
+
 def build_inputs(case):
     torch = _torch()
     sh = tuple(case["shape"])
@@ -291,6 +300,8 @@ def run_impl(case):
 
     def w_qr(X, *a, **k):
         i = len(rec["qr_in"])
+        if i >= MAX_QR_CALLS:
+            raise Runaway(f"more than {MAX_QR_CALLS} qr calls")
         rec["qr_in"].append(hexrows(X))
         try:
             if fault.startswith("qr") and str(i) in fault[2:]:
@@ -474,7 +485,7 @@ def signature(case) -> str:
 
 # budgets in units of n*u (orthonormality), n*u*||A|| (diagonalisation, order) and n*u*||A||/gap (fixed eigenbasis);
 # fixed after measuring seeds 0,1,2 of both tiers: see `measured_max` in the evidence; margin >= 10x
-BUDGET = {"orth": 40.0, "diag": 40.0, "order": 40.0, "fixed": 200.0}
+BUDGET = {"orth": 50.0, "diag": 20.0, "order": 20.0, "fixed": 12.0}
 
 
 def measure(ck: Check):
